@@ -27,3 +27,14 @@ package alg
 //@   loop 1: decreases len(s)
 //@   loop 2: invariant true
 //@   loop 2: decreases len(s)
+
+// ---- text of byte sequences for the escaping / validation routines
+//@ pure func htmlSpec(src string) string
+//@ pure func utf8Valid(src string) bool
+
+// HtmlEscape (ownership part, C06): the result lives in dst's array or in a new
+// one; src is not written; nothing is pooled.  (Functional part: C20.)
+//@ func HtmlEscape assumed "restart loop around native html_escape; ownership facts only (loop not yet under contract)"
+//@   modifies dst[_]
+//@   ensures base(result) == base(dst) || fresh(result)
+//@   ensures base(result) != 0
